@@ -17,7 +17,9 @@ import (
 var allKinds = []string{"read", "write", "sync", "dirsync", "create", "open", "meta", "other"}
 
 // File classes a rule can name (by path, like dbm/crash.go fileClass).
-var allClasses = []string{"wal", "manifest", "marker", "options", "sst", "blob", "temp", "dir", "other"}
+// "ext" are the external sstables of an ingestion before they are linked into
+// the store (so that "sst" rules hit the store's own tables).
+var allClasses = []string{"wal", "manifest", "marker", "options", "sst", "blob", "temp", "dir", "other", "ext"}
 
 func fileClass(path string) string {
 	base := path
@@ -25,6 +27,8 @@ func fileClass(path string) string {
 		base = path[i+1:]
 	}
 	switch {
+	case strings.HasPrefix(path, "ext/") && base != "ext":
+		return "ext"
 	case strings.HasSuffix(base, ".log"):
 		return "wal"
 	case strings.HasPrefix(base, "MANIFEST"):
